@@ -198,6 +198,7 @@ func rulesC18(c *Ctx) {
 			}
 		}
 		c.Rule("C18.parens", "the stripper of SetTimeRange looks through parentheses around a comparison's operands when it tests for the time variable: the fold that follows removes such parentheses, so `(time) > x` becomes an ordinary time bound afterwards and, not having been stripped, keeps intersecting with every new window")
+		stripperTotalRule(c, "C18.parens")
 		parenTransparencyRule(c, "C18.parens", "rewriteWithoutTimeDimensions: time operand inside parentheses", stripLit, "*VarRef", "the operands are tested for *VarRef directly: `(time) > '2030-01-01T00:00:00Z'` is not recognised, survives the call, and after the fold it is a plain time bound that contradicts the new window")
 		// the stripper must not replace AND/OR nodes themselves, and must keep everything else
 		callstripC18(c, stripLit)
@@ -709,5 +710,127 @@ func parenTransparencyRule(c *Ctx, rule, key string, f *ssa.Function, kind strin
 		c.OK(rule, key, pos, "parentheses around the operand are looked through")
 	default:
 		c.Bad(rule, key, pos, why)
+	}
+}
+
+// parenStrippers: package functions func(Expr) Expr whose only type test is
+// for *ParenExpr and whose only calls are to one another — helpers that take an
+// expression out of its parentheses.
+func (p *Program) parenStrippers() []*ssa.Function {
+	var cands []*ssa.Function
+	for _, f := range p.allSSAFuncs() {
+		if f.Parent() != nil || f.Signature.Recv() != nil || len(f.Params) != 1 || f.Signature.Results().Len() != 1 {
+			continue
+		}
+		if p.TypeStr(f.Params[0].Type()) != "Expr" || p.TypeStr(f.Signature.Results().At(0).Type()) != "Expr" {
+			continue
+		}
+		n, other := 0, false
+		for _, b := range f.Blocks {
+			for _, in := range b.Instrs {
+				switch x := in.(type) {
+				case *ssa.TypeAssert:
+					if p.TypeStr(x.AssertedType) == "*ParenExpr" {
+						n++
+					} else {
+						other = true
+					}
+				case *ssa.MakeInterface, *ssa.Alloc, *ssa.Store:
+					other = true
+				}
+			}
+		}
+		if n > 0 && !other {
+			cands = append(cands, f)
+		}
+	}
+	in := map[*ssa.Function]bool{}
+	for _, f := range cands {
+		in[f] = true
+	}
+	for changed := true; changed; {
+		changed = false
+		for f := range in {
+			for _, b := range f.Blocks {
+				for _, ins := range b.Instrs {
+					if call, ok := ins.(*ssa.Call); ok {
+						if cal := call.Call.StaticCallee(); cal == nil || !in[cal] {
+							delete(in, f)
+							changed = true
+						}
+					}
+				}
+			}
+		}
+	}
+	var out []*ssa.Function
+	for _, f := range cands {
+		if in[f] {
+			out = append(out, f)
+		}
+	}
+	return out
+}
+
+// stripperTotalRule: what a paren-stripping helper returns is never itself a
+// *ParenExpr — each returned value either failed the *ParenExpr test on the way
+// to the return, or is the result of stripping again.
+func stripperTotalRule(c *Ctx, rule string) {
+	p := c.P
+	strippers := p.parenStrippers()
+	isStripper := map[*ssa.Function]bool{}
+	for _, f := range strippers {
+		isStripper[f] = true
+	}
+	for _, f := range strippers {
+		n := 0
+		for _, b := range f.Blocks {
+			ret, ok := b.Instrs[len(b.Instrs)-1].(*ssa.Return)
+			if !ok || len(ret.Results) != 1 {
+				continue
+			}
+			n++
+			key := fmt.Sprintf("%s: return #%d is outside every parenthesis", f.Name(), n)
+			v := ret.Results[0]
+			if ci, ok := v.(*ssa.ChangeInterface); ok {
+				v = ci.X
+			}
+			if call, ok := v.(*ssa.Call); ok && isStripper[call.Call.StaticCallee()] {
+				c.OK(rule, key, ret.Pos(), "the result of stripping again")
+				continue
+			}
+			failed := false
+			for d := b; d != nil && !failed; d = d.Idom() {
+				for _, pr := range d.Preds {
+					ifi, ok := pr.Instrs[len(pr.Instrs)-1].(*ssa.If)
+					if !ok || len(pr.Succs) != 2 || pr.Succs[1] != d || len(d.Preds) != 1 {
+						continue
+					}
+					ex, ok := ifi.Cond.(*ssa.Extract)
+					if !ok || ex.Index != 1 {
+						continue
+					}
+					ta, ok := ex.Tuple.(*ssa.TypeAssert)
+					if ok && ta.CommaOk && p.TypeStr(ta.AssertedType) == "*ParenExpr" && ta.X == v {
+						failed = true
+					}
+				}
+			}
+			if failed {
+				c.OK(rule, key, ret.Pos(), "returned only where its *ParenExpr test failed")
+				continue
+			}
+			inner := false
+			if u, ok := v.(*ssa.UnOp); ok && u.Op == token.MUL {
+				if fa, ok := u.X.(*ssa.FieldAddr); ok && p.TypeStr(fa.X.Type()) == "*ParenExpr" {
+					inner = true
+				}
+			}
+			if inner {
+				c.Bad(rule, key, ret.Pos(), "the inside of one *ParenExpr is returned untested: for `((x))` the result is still a *ParenExpr, and every caller that looks through parentheses with this helper misses the operand")
+			} else {
+				c.Unk(rule, key, ret.Pos(), "the returned value is neither a failed *ParenExpr test nor a further strip")
+			}
+		}
 	}
 }
